@@ -136,6 +136,7 @@ def build_cases(prog, tag, rewrites=True, rng=None, only_strict=None):
                         mlines.append((gid + '|bw', 'rw blockwrap %d %s' % (FUEL, G.to_sexp(vv, strict))))
                         # … and the Lean-defined expr_stmt_vs_value_position rewrite (theorem …_sound)
                         mlines.append((gid + '|ev', 'rw exprvoid %d %s' % (FUEL, G.to_sexp(vv, strict))))
+                        mlines.append((gid + '|ec', 'rw exprcomma %d %s' % (FUEL, G.to_sexp(vv, strict))))
             plan.append(('variant', strict, name))
     return greq, mlines, plan
 
@@ -201,7 +202,8 @@ def check_program(tag, plan, gout, mout, st, fails, have_model=True):
                         fails.append({'kind': 'model-vs-goja', 'tag': tag, 'id': gid, 'rewrite': name, 'placement': pl,
                                       'strict': strict, 'expected': m, 'observed': g['out']})
             if have_model and name == 'orig' and pl != 'eval' and m is not None and comparable(m):
-                for suf, nm, key in (('|bw', 'block_wrap(lean)', 'lean_blockwrap'), ('|ev', 'expr_stmt_void(lean)', 'lean_exprvoid')):
+                for suf, nm, key in (('|bw', 'block_wrap(lean)', 'lean_blockwrap'), ('|ev', 'expr_stmt_void(lean)', 'lean_exprvoid'),
+                                      ('|ec', 'expr_stmt_comma(lean)', 'lean_exprcomma')):
                     mb = mout.get(gid + suf)
                     if mb is not None:
                         st[key] += 1
@@ -410,7 +412,7 @@ def classify_failure(harness, model, seed, i, f):
 
 
 def new_stats():
-    return {'goja_runs': 0, 'compared': 0, 'metamorphic': 0, 'model_variant': 0, 'lean_rw': 0, 'lean_rw_changed': 0, 'lean_blockwrap': 0, 'lean_exprvoid': 0, 'goja_kind': {},
+    return {'goja_runs': 0, 'compared': 0, 'metamorphic': 0, 'model_variant': 0, 'lean_rw': 0, 'lean_rw_changed': 0, 'lean_blockwrap': 0, 'lean_exprvoid': 0, 'lean_exprcomma': 0, 'goja_kind': {},
             'model_kind': {}, 'rw_applied': {}, 'dump_changed': {}, 'ins_shift': {}, 'programs': 0, 'nontriv': [],
             'src_len': 0, 'samples': [], 'cut_short': 0, 'inconclusive_batches': 0, 'with_pairs': 0, 'with_pairs_bytecode_differs': 0}
 
@@ -623,7 +625,7 @@ def main(ctx):
             model = None
     if model is None:
         ctx.obligation('model-driver', 'correspondence', False, 'model_c02 unavailable: only the metamorphic (goja vs goja) checks run')
-    ctx.audit('GojaModel.C02.Props', expect_min=18)
+    ctx.audit('GojaModel.C02.Props', expect_min=22)
     if ctx.tier == 'thorough':
         ctx.leanchecker('GojaModel.C02.Props')
     harness = ctx.go_build()
@@ -659,7 +661,7 @@ def main(ctx):
         ctx.sample(s)
     ctx.stats.update({
         'programs': st['programs'], 'goja_runs': st['goja_runs'], 'model_vs_goja_compared': st['compared'],
-        'metamorphic_pairs': st['metamorphic'], 'model_variant_pairs': st['model_variant'], 'lean_rewrite_undo_checks': st['lean_rw'], 'lean_rewrite_changed_program': st['lean_rw_changed'], 'lean_blockwrap_checks': st['lean_blockwrap'], 'lean_exprvoid_checks': st['lean_exprvoid'],
+        'metamorphic_pairs': st['metamorphic'], 'model_variant_pairs': st['model_variant'], 'lean_rewrite_undo_checks': st['lean_rw'], 'lean_rewrite_changed_program': st['lean_rw_changed'], 'lean_blockwrap_checks': st['lean_blockwrap'], 'lean_exprvoid_checks': st['lean_exprvoid'], 'lean_exprcomma_checks': st['lean_exprcomma'],
         'goja_outcome_kinds': st['goja_kind'], 'model_outcome_kinds': st['model_kind'], 'rewrite_applications': st['rw_applied'],
         'bytecode_skeleton_changed_by_rewrite': {k: '%d/%d' % (v[0], v[1]) for k, v in st['dump_changed'].items()},
         'instruction_category_shift': st['ins_shift'], 'avg_source_len': st['src_len'] // max(1, st['programs']),
